@@ -116,11 +116,15 @@ pub fn c17(rng: &mut Rng, n: u64, work: &Path, out: &mut Out) {
         out.cases += 1;
         let l = *rng.pick(&[8191usize, 8192, 8193, 65_535, 65_536, 65_537, 100_000, 200_000, 100, 1000, 4096]);
         let l = if i % 3 == 0 { l } else { rng.range(7, 300) as usize };
+        // sizes across the MiB scale (read-ahead windows, allocation caps): once or twice per run
+        let l = if i == 1 { (1usize << 20) + 4097 } else if i == 7 { 3 * (1usize << 20) + 17 } else { l };
+        if l > (1 << 20) { out.count("range.blob>1MiB"); }
         let content = rng.bytes(l);
         let key = put(&content, rng.range(1, 4) as usize);
         // whole-blob and near-whole ranges (long single reads)
         if l > 9000 {
-            for (s0, e0) in [(0u64, l as u64), (0, u64::MAX), (1, 1 << 63), (0, l as u64 - 1)] {
+            for (s0, e0) in [(0u64, l as u64), (0, u64::MAX), (1, 1 << 63), (0, l as u64 - 1), (5, l as u64 - 5),
+                             (l as u64 / 3, l as u64 / 3 + (1 << 20) + 1), (7, 7 + (1 << 20))] {
                 let r = cas.get_range(&key, s0, e0);
                 let lo = s0.min(l as u64) as usize;
                 let hi = e0.min(l as u64) as usize;
